@@ -198,6 +198,24 @@ def run(ctx):
                           key=('G6', fi.qual, src(n.ast.targets[0]), ','.join(sorted(arriving - est))),
                           site=ctx.site(fi, n.ast))
     ctx.floor('G6 assignments of ESTABLISHED', nsites, 7)
+    # CHILD_SA negotiation (which installs kernel SAs) outside the IKE_AUTH handlers runs only on an authenticated IKE_SA
+    nproc = 0
+    for fi in prog.cls('ikesa.IkeSa').methods.values():
+        if fi.qual in (AUTH_REQ, AUTH_RES):
+            continue
+        g = esc.add_exception_edges(fi)
+        for n, x in common.nodes_calling(ctx, fi, g, lambda c, r: any(
+                t.name in ('_process_create_child_sa_negotiation_req', '_process_create_child_sa_negotiation_res',
+                           '_process_ike_sa_negotiation_request') and callee_name(c) != '_process_ike_sa_negotiation_request'
+                or (t.name == '_process_ike_sa_negotiation_request' and src(c.func.value) == 'self.new_ike_sa')
+                for t in r.targets)):
+            nproc += 1
+            arriving = ts.states_at(fi, n)
+            ctx.check(bool(arriving) and arriving <= est, 'G6', '`%s` in %s (installs or hands over kernel SAs) runs only on an '
+                      'authenticated IKE_SA (arriving states %s)' % (callee_name(x), fi.name, sorted(arriving)),
+                      key=('G6', fi.qual, 'unauthenticated-child-processing', callee_name(x), ','.join(sorted(arriving - est))),
+                      site=ctx.site(fi, x))
+    ctx.floor('G6 CHILD_SA / rekey processing call sites outside IKE_AUTH', nproc, 3)
     ctx.note(ASSUMPTIONS[1])
 
 
